@@ -15,6 +15,7 @@ import (
 	"os"
 	"reflect"
 	"runtime"
+	"runtime/pprof"
 	"strings"
 	"testing"
 	"time"
@@ -29,6 +30,14 @@ import (
 
 func TestMain(m *testing.M) {
 	if os.Getenv("C08_WORKER") != "" {
+		if p := os.Getenv("C08_WORKER_PROF"); p != "" { // development aid
+			f, _ := os.Create(fmt.Sprintf("%s.%d", p, os.Getpid()))
+			pprof.StartCPUProfile(f)
+			workerMain()
+			pprof.StopCPUProfile()
+			f.Close()
+			os.Exit(0)
+		}
 		workerMain()
 		os.Exit(0)
 	}
@@ -171,6 +180,7 @@ func (e *engine) judge(j *job, fail *evid.Failure) bool {
 	fail.Oracle += fmt.Sprintf(" [probe %s %s, %s, input %s]", j.pi.ID, j.pi.Mut, thriftspec.Proto(e.c.P%3), hexShort(j.in))
 	if cls := knownClass(e.c, &j.pi, fail); cls != "" && e.known[cls] {
 		e.resp.Excl[cls]++
+		e.label("excluded-failure." + j.pi.Group + "." + fail.Class)
 		return true
 	}
 	pi := j.pi
@@ -843,6 +853,12 @@ func (e *engine) readerOps() {
 				rest := c.Bytes[len(c.Bytes)-br.Len():]
 				if big(c.P, rest, op == 9) {
 					e.resp.Excl[classAlloc]++
+					return nil
+				}
+				if isBinary(c.P) && len(rest) < 8 && e.known[classShortRead] {
+					// fewer bytes than the length prefix: the binary reader would take the
+					// length from stale scratch bytes (listed short-read defect)
+					e.resp.Excl[classShortRead]++
 					return nil
 				}
 			}
